@@ -299,6 +299,9 @@ func hintVerdict(r *vrun.Run, h hdrDesc, d time.Time, t0, t1 time.Time, w int64,
 			if fallbackOK() {
 				return true, false, ""
 			}
+			if h.Class == "int-beyond-int64" {
+				return false, false, "unexpected-wait-for-unrepresentable-hint"
+			}
 			return false, false, "wrapped-wait"
 		case "int-plus":
 			if w == ns.Int64() || fallbackOK() {
